@@ -17,6 +17,10 @@ if ROUND == '7':
     MAP = {'A': 'K', 'B': 'L'}
 if ROUND == '8':
     MAP = {'A': 'M', 'B': 'N'}
+if ROUND == '9':
+    MAP = {'A': 'O', 'B': 'P'}
+if ROUND == '10':
+    MAP = {'A': 'Q', 'B': 'R'}
 for p in sys.argv[1:]:
     notes=open('/tmp/wt/%s/seeded/NOTES.md'%p).read()
     unconfirmed = []
